@@ -119,10 +119,12 @@ class Runner(object):
             timer.daemon = True
             timer.start()
         res = {'kind': 'ok', 'code': 0, 'detail': ''}
-        signal.setitimer(signal.ITIMER_REAL, CASE_TIMEOUT)
+        # repeating timer: a Hang raised inside a destructor / weakref callback is swallowed by Python, the next tick lands in normal code
+        signal.setitimer(signal.ITIMER_REAL, CASE_TIMEOUT, 0.5)
         try:
             fn()
         except Hang:
+            signal.setitimer(signal.ITIMER_REAL, 0)
             res = {'kind': 'hang', 'code': 0, 'detail': 'wall-clock watchdog'}
         except BaseException as e:      # noqa
             signal.setitimer(signal.ITIMER_REAL, 0)
@@ -278,6 +280,7 @@ class Runner(object):
             fn = {'T': self.run_transition, 'L': self.run_lines, 'P': self.run_program, 'F': self.run_file}[case['arm']]
             return fn(case)
         except Hang:
+            signal.setitimer(signal.ITIMER_REAL, 0)
             return {'kind': 'hang', 'code': 0, 'detail': 'watchdog during setup', 'out': ''}
         except BaseException as e:     # noqa   exception while ESTABLISHING the state: also an escaping exception
             if type(e).__name__ == 'Exit':
